@@ -13,6 +13,7 @@ import (
 	"sync"
 
 	"verif/internal/pdfdoc"
+	"verif/internal/pdfw"
 
 	tabula "github.com/tsawler/tabula"
 )
@@ -511,6 +512,9 @@ func c10Life(i int, raw []byte) Result {
 // c10LifeFmt: the same histories on a document of every other format (DOCX, ODT, XLSX, PPTX, EPUB, HTML). Only
 // histories whose derivations are option-only are replayed (page selection is a PDF notion): a derivation is
 // ExcludeHeaders(), PageCount and Text must succeed, and the descriptor accounting of Lifecycle.tla must hold.
+var lifeFmtDocs = []string{"docx", "odt", "xlsx", "pptx", "epub", "html",
+	"bad-nopages:pdf", "bad-pagesint:pdf", "bad-bigcount:pdf", "bad-kidmissing:pdf", "bad-content:pdf", "bad-garbage:pdf", "bad-empty:pdf",
+	"bad-nozip:docx", "bad-nobody:docx", "bad-trunc:xlsx", "bad-noopf:epub", "bad-missing:pdf"}
 var lifeFmtOnce sync.Once
 var lifeFmtPaths map[string]string
 
@@ -533,6 +537,10 @@ func c10LifeFmt(i int, raw []byte) Result {
 		put := func(ext string, b []byte, err error) {
 			if err == nil {
 				p := filepath.Join(dir, fmt.Sprintf("c10fmt-%d.%s", os.Getpid(), ext))
+				if k := strings.Index(ext, ":"); k >= 0 {
+					// "bad-<what>:<extension>": a damaged document
+					p = filepath.Join(dir, fmt.Sprintf("c10fmt-%d-%s.%s", os.Getpid(), ext[:k], ext[k+1:]))
+				}
 				if os.WriteFile(p, b, 0o644) == nil {
 					lifeFmtPaths[ext] = p
 				}
@@ -549,9 +557,51 @@ func c10LifeFmt(i int, raw []byte) Result {
 		b, err = zipOf(epubMembers(epubCfg{}))
 		put("epub", b, err)
 		put("html", []byte("<!DOCTYPE html><html><body><h1>t</h1><p>"+c20Token+"</p></body></html>"), nil)
+		// damaged documents: the file opens (or does not) and operations fail part-way - "successful or failed, no file
+		// handle remains open". What each operation answers is not compared here, only panics and descriptors.
+		onePage := func(cat pdfw.Dict, pages pdfw.Obj, content string) ([]byte, error) {
+			f := &pdfw.File{EOL: "lf", Revs: []pdfw.Revision{{XRef: "table", Root: pdfw.Ref{Num: 1}, Items: []pdfw.Item{
+				{Num: 1, Val: cat}, {Num: 2, Val: pages},
+				{Num: 3, Val: pdfw.Dict{{"Type", pdfw.Name("Page")}, {"Parent", pdfw.Ref{Num: 2}}, {"MediaBox", pdfw.Arr{pdfw.Int(0), pdfw.Int(0), pdfw.Int(300), pdfw.Int(300)}},
+					{"Resources", pdfw.Dict{{"Font", pdfw.Dict{{"F1", pdfw.Ref{Num: 5}}}}}}, {"Contents", pdfw.Ref{Num: 4}}}},
+				{Num: 4, Stm: &pdfw.Stream{Data: []byte(content)}},
+				{Num: 5, Val: pdfw.Dict{{"Type", pdfw.Name("Font")}, {"Subtype", pdfw.Name("Type1")}, {"BaseFont", pdfw.Name("Helvetica")}}}}}}}
+			b, _, err := f.Bytes()
+			return b, err
+		}
+		okPages := pdfw.Dict{{"Type", pdfw.Name("Pages")}, {"Kids", pdfw.Arr{pdfw.Ref{Num: 3}}}, {"Count", pdfw.Int(1)}}
+		okCat := pdfw.Dict{{"Type", pdfw.Name("Catalog")}, {"Pages", pdfw.Ref{Num: 2}}}
+		okText := "BT /F1 12 Tf 20 100 Td (" + c20Token + ") Tj ET"
+		b, err = onePage(pdfw.Dict{{"Type", pdfw.Name("Catalog")}}, okPages, okText)
+		put("bad-nopages:pdf", b, err)
+		b, err = onePage(okCat, pdfw.Int(7), okText)
+		put("bad-pagesint:pdf", b, err)
+		b, err = onePage(okCat, pdfw.Dict{{"Type", pdfw.Name("Pages")}, {"Kids", pdfw.Arr{pdfw.Ref{Num: 3}}}, {"Count", pdfw.Int(999999)}}, okText)
+		put("bad-bigcount:pdf", b, err)
+		b, err = onePage(okCat, pdfw.Dict{{"Type", pdfw.Name("Pages")}, {"Kids", pdfw.Arr{pdfw.Ref{Num: 9}}}, {"Count", pdfw.Int(1)}}, okText)
+		put("bad-kidmissing:pdf", b, err)
+		b, err = onePage(okCat, okPages, "BT /F1 12 Tf ( unbalanced")
+		put("bad-content:pdf", b, err)
+		put("bad-garbage:pdf", []byte("%PDF-1.4\nthis is no document\n%%EOF\n"), nil)
+		put("bad-empty:pdf", []byte{}, nil)
+		put("bad-nozip:docx", []byte("PK\x03\x04 not an archive"), nil)
+		if zb, zerr := zipOf(docxMembers()[:1]); zerr == nil {
+			put("bad-nobody:docx", zb, nil)
+		}
+		if zb, zerr := zipOf(xlsxMembers()); zerr == nil {
+			put("bad-trunc:xlsx", zb[:len(zb)*2/3], nil)
+		}
+		if zb, zerr := zipOf(epubMembers(epubCfg{})[:2]); zerr == nil {
+			put("bad-noopf:epub", zb, nil)
+		}
+		lifeFmtPaths["bad-missing:pdf"] = filepath.Join(dir, fmt.Sprintf("c10fmt-%d-absent.pdf", os.Getpid()))
 	})
 	r := Result{OK: true, Nontrivial: len(c.Log) >= 2, Key: string(raw)}
-	for _, ext := range []string{"docx", "odt", "xlsx", "pptx", "epub", "html"} {
+	for _, ext := range lifeFmtDocs {
+		damaged := strings.HasPrefix(ext, "bad-")
+		if damaged && (i+len(ext))%3 != 0 && tier() == "quick" {
+			continue // quick: each damaged document under a third of the histories
+		}
 		path := lifeFmtPaths[ext]
 		if path == "" {
 			return Result{OK: false, Sig: "MACHINERY:writer", What: "no " + ext + " document"}
@@ -609,7 +659,7 @@ func c10LifeFmt(i int, raw []byte) Result {
 			if classify(got) == "panic" {
 				return mk("life-panic", fmt.Sprintf("%s panicked: %s", op.Op, got), k)
 			}
-			if op.Res == "ok" && classify(got) != "ok" {
+			if op.Res == "ok" && classify(got) != "ok" && !damaged {
 				return mk("life-derive-not-pure", fmt.Sprintf("%s on extractor %d failed (%s) although only extractors derived from it were used in between", op.Op, op.E, got), k)
 			}
 			if open > op.Open {
